@@ -103,7 +103,8 @@ def cells_source(c, name=None):
         if tick:
             return "lambda %s: %s or %s" % (params_src(params), tick, body)
         return "lambda %s: %s" % (params_src(params), body)
-    lines = ["def %s(%s):" % (name, params_src(params))]
+    # "defname": the function is written under another name than the cells gets (new_cells(name, formula) renames it)
+    lines = ["def %s(%s):" % (c.get("defname") or name, params_src(params))]
     if c.get("doc"):
         lines.append('    """%s"""' % c["doc"])
     if tick:
